@@ -15,7 +15,7 @@ def main():
     out = {}
     for n in range(1, 21):
         cid = f"C{n:02d}"
-        for v in ("a", "b"):
+        for v in (sys.argv[1:] or ["a", "b"]):
             src = f"/tmp/wt/{cid}/out/{v}"
             if not os.path.exists(f"{src}/patch.diff"):
                 continue
